@@ -100,3 +100,80 @@ Proof. vm_compute. repeat split; reflexivity. Qed.
 Theorem wrap_constants_match_source :
   WRAP_BREAK = [NL; SP] /\ WRAP_BREAK_LINE_LEN = 1%nat /\ TARGET = TARGET_LINE_LEN.
 Proof. repeat split; reflexivity. Qed.
+
+(* ------------------------------------------------------------------ *)
+(* two adjacent names *)
+
+Lemma lower_not_space c : valid_char c = true -> N.eqb (lower c) SPACE = false.
+Proof.
+  intros H. apply (valid_char_forall (fun c => negb (N.eqb (lower c) SPACE))) in H; [apply negb_true_iff; exact H|].
+  vm_compute. reflexivity.
+Qed.
+
+Lemma split_space_join a b :
+  forallb valid_char a = true -> split_space (lower_text a ++ SPACE :: b) = Some (lower_text a, b).
+Proof.
+  induction a as [|c a IH]; intros H.
+  - reflexivity.
+  - cbn [forallb] in H. apply andb_true_iff in H. destruct H as [Hc Ha].
+    cbn [lower_text map app split_space]. fold (lower_text a).
+    rewrite (lower_not_space c Hc).
+    rewrite (IH Ha). reflexivity.
+Qed.
+
+Lemma valid_label_chars s : validate_label (Some s) = true -> forallb valid_char s = true.
+Proof.
+  destruct s as [|c t]; [discriminate|]. cbn [validate_label]. intros H.
+  apply andb_true_iff in H. destruct H as [H _]. apply andb_true_iff in H. apply H.
+Qed.
+
+(* two accepted labels are joined into a keyword exactly when the pair of their lower-case forms is
+   one of the two-word keywords of the generated table *)
+Theorem reader_joins_iff a b :
+  validate_label (Some a) = true ->
+  (reader_joins a b = true <-> In (lower_text a, lower_text b) two_word_keywords).
+Proof.
+  intros Ha. apply valid_label_chars in Ha.
+  unfold reader_joins, two_word_keywords, in_texts. cbn [app]. rewrite existsb_exists. split.
+  - intros [w [Hw E]]. apply text_eqb_eq in E. apply in_map_iff in Hw. destruct Hw as [kw [Ek Hk]].
+    apply in_flat_map. exists kw. split; [exact Hk|]. cbv beta. unfold text, char in *. rewrite Ek, <- E, (split_space_join a _ Ha).
+    left. reflexivity.
+  - intros H. apply in_flat_map in H. destruct H as [kw [Hk H]]. cbv beta in H.
+    destruct (split_space (fst kw)) as [[x y]|] eqn:S; [|contradiction].
+    destruct H as [H | []]. inversion H; subst x y. clear H.
+    exists (fst kw). split; [apply in_map; exact Hk|].
+    assert (E : fst kw = lower_text a ++ SPACE :: lower_text b).
+    { clear Hk. revert S. generalize (fst kw) as s. generalize (lower_text a) as x.
+      intros x s. revert x. induction s as [|c r IH]; intros x S; [discriminate|].
+      cbn [split_space] in S. destruct (N.eqb c SPACE) eqn:Ec.
+      - inversion S; subst. apply N.eqb_eq in Ec. subst c. reflexivity.
+      - destruct (split_space r) as [[x' y']|] eqn:Sr; [|discriminate]. inversion S; subst.
+        cbn [app]. f_equal. apply IH. reflexivity. }
+    rewrite E. apply text_eqb_refl.
+Qed.
+
+(* the open finding lp_label_two_word_keyword against the generated table: each name alone is read
+   back, the adjacent pair is not *)
+Theorem adjacent_names_refuted :
+  let subject := [115; 117; 98; 106; 101; 99; 116]%N in
+  let to := [116; 111]%N in
+  let Such := [83; 117; 99; 104]%N in
+  let THAT := [84; 72; 65; 84]%N in
+  (validate_label (Some subject) = true /\ validate_label (Some to) = true /\
+   reader_reads_label AsVariable subject = true /\ reader_reads_label AsVariable to = true /\
+   names_section_read [subject; to] = false /\ names_section_read [to; subject] = true) /\
+  (reader_reads_label AsVariable Such = true /\ reader_reads_label AsVariable THAT = true /\
+   names_section_read [Such; THAT] = false) /\
+  two_word_keywords = [(subject, to); ([115; 117; 99; 104]%N, [116; 104; 97; 116]%N)].
+Proof. vm_compute. repeat split; reflexivity. Qed.
+
+(* a name list is read back when every name is safe and no adjacent pair is a two-word keyword *)
+Theorem names_section_read_spec names :
+  Forall (fun s => validate_label (Some s) = true) names ->
+  (names_section_read names = true <->
+   (Forall (fun s => label_safe AsVariable s = true) names /\ adjacent_join names = false)).
+Proof.
+  intros Hv. unfold names_section_read. rewrite andb_true_iff, negb_true_iff, forallb_forall, Forall_forall.
+  split; intros [H1 H2]; (split; [|exact H2]); intros s Hs;
+    apply (label_readable_iff AsVariable s (proj1 (Forall_forall _ _) Hv s Hs)); apply H1; exact Hs.
+Qed.
